@@ -241,6 +241,22 @@ def check_cases(ctx, cases):
         for _, t, p, _g in es:
             ctx.count("type=" + t)
             ctx.count("mode=canonical" if p in CANON else "mode=other")
+        if ci % 4 == 1 or case.get("after_failed_call"):
+            # "nothing but the entry set influences the id": not even a formatting call that failed half-way
+            # just before (an entry set that is not legal: the second entry in sort order has no mode; once
+            # through the formatter, once through the repair constructor)
+            import types
+
+            ok_e = model.DirectoryEntry(name=b"a", type="file", target=b"\x11" * 20, perms=0o100644)
+            bad_e = types.SimpleNamespace(name=b"zz", type="file", target=b"\x22" * 20, perms=None)
+            for attempt in (lambda: git_objects.directory_git_object(types.SimpleNamespace(entries=(ok_e, bad_e))),
+                            lambda: model.Directory.from_possibly_duplicated_entries(entries=(ok_e, {"name": b"zz", "type": "file", "target": b"\x22" * 20, "perms": 0o100644}))):
+                try:
+                    attempt()
+                except Exception:
+                    pass
+            ctx.count("after-failed-call")
+            case = dict(case, after_failed_call=True)   # (so that a replay of this case repeats the failed call)
         try:
             d = impl_dir(es)
         except Exception as e:
@@ -341,6 +357,8 @@ def shrink(ctx, failure):
         changed = False
         for i in range(len(es)):
             cand = {"entries": es[:i] + es[i + 1 :], "perms": [list(reversed(range(len(es) - 1)))]}
+            if case.get("after_failed_call"):
+                cand["after_failed_call"] = True
             c2 = Ctx(ctx.prop, ctx.tier, ctx.seed)
             c2.model_available = False
             try:
@@ -351,4 +369,7 @@ def shrink(ctx, failure):
                 es = cand["entries"]
                 changed = True
                 break
-    return {"entries": es, "perms": [list(reversed(range(len(es))))]}
+    out = {"entries": es, "perms": [list(reversed(range(len(es))))]}
+    if case.get("after_failed_call"):
+        out["after_failed_call"] = True
+    return out
